@@ -2,7 +2,7 @@
    Only statements here; proofs live in Proofs/.  Every theorem is followed by Print Assumptions. *)
 From FRP Require Import Model.Base64 Model.Udp Model.UdpSched Proofs.Base64Proofs Proofs.UdpProofs Proofs.UdpFwdProofs
   Proofs.UdpSchedProofs Model.UdpSrvPump Proofs.UdpSrvPumpProofs Model.UdpLoops Proofs.UdpLoopsProofs
-  gen.GenC03Udp Proofs.RegistryCheck.
+  Model.UdpSrvLoop Proofs.UdpSrvLoopProofs gen.GenC03Udp Proofs.RegistryCheck.
 Open Scope Z_scope.
 
 Definition today_registry := registry type_consts type_map.
@@ -163,6 +163,39 @@ Theorem C03_stale_sender_loses_after_reestablishment :
             existsb plost_while_established (prun true pinit h) = false.
 Proof. exists stale_sender_history. rewrite (proj1 stale_sender_witness), (proj2 stale_sender_witness). split; reflexivity. Qed.
 Print Assumptions C03_stale_sender_loses_after_reestablishment.
+
+(* the replacement loop with the notifications on checkCloseCh explicit (Model/UdpSrvLoop.v).  Reflective over
+   today's source: the only function literal of UDPProxy.Run that sends on pxy.checkCloseCh is the reader *)
+Theorem C03_only_the_reader_notifies :
+  gen_c03_unknown = false /\ gen_c03_checkclose_notifiers = ["workConnReaderFn"]%string.
+Proof. vm_compute. split; reflexivity. Qed.
+Print Assumptions C03_only_the_reader_notifies.
+
+(* then, for every schedule (breaks, failing writes, any order of reader / sender / loop steps, any number of
+   replacements): the loop never gives up a healthy work connection — every notification it consumes belongs to
+   a connection that is dead — and at most one notification is pending: one failure, one replacement.  Together
+   with C03_no_loss_once_reestablished: light-load datagrams arrive once the replacement is up *)
+Theorem C03_one_failure_one_replacement : forall h,
+  forallb (fun o => negb (lout_alive o)) (snd (lrun false linit h)) = true /\
+  (l_notes (fst (lrun false linit h)) <= 1)%N.
+Proof. intros h. apply healthy_connection_never_given_up. exact linv_init. Qed.
+Print Assumptions C03_one_failure_one_replacement.
+
+(* a sender that notifies as well refutes it: the second notification of ONE failure takes the healthy
+   replacement down, closing it makes its reader notify, and so on; the same schedule is harmless today *)
+Theorem C03_double_notification_refuted :
+  snd (lrun true linit double_notify_history) = [LGaveUpDead 0; LGaveUpAlive 1; LGaveUpAlive 2] /\
+  snd (lrun false linit double_notify_history) = [LGaveUpDead 0].
+Proof. exact double_notify_witness. Qed.
+Print Assumptions C03_double_notification_refuted.
+
+(* the packet size as configured: reflective over pkg/config/legacy/conversion.go — a legacy ini file's
+   udp_packet_size reaches the v1 configuration of frpc and frps by plain copies; with C03_payload_untruncated
+   (uc_buf = the configured size) payloads up to the configured size are not truncated in any format *)
+Theorem C03_legacy_ini_packet_size_unchanged :
+  gen_c03_legacy_packet_size = ["out.UDPPacketSize = conf.UDPPacketSize"; "out.UDPPacketSize = conf.UDPPacketSize"]%string.
+Proof. vm_compute. reflexivity. Qed.
+Print Assumptions C03_legacy_ini_packet_size_unchanged.
 
 (* at light load (nothing dropped, pipeline drained) exactly the datagrams sent have arrived,
    and exactly the replies read have reached their users *)
